@@ -143,6 +143,7 @@ def eval_suite(chk, w, rule, nmax, orders=(0, 1, 2), ns=None, fixed=True):
                                                                          new_window=(s2, e2), evaluated_before=r1,
                                                                          x=r2), o2, ok2,
                                                   "the piece of an interval of the new support containing x")
+                before = snap(sp)
                 for r in ranks:
                     x = Sc(r, frozenset([("x",)]))
                     case = dict(order=order, n=n, window=(s, e), x=("nan" if r == NAN else "%s (grid points at even "
@@ -176,6 +177,8 @@ def eval_suite(chk, w, rule, nmax, orders=(0, 1, 2), ns=None, fixed=True):
                             ok = contains and full and frame
                     cs.expect(fe, "inside the support: the piece of an interval containing x, expanded about that "
                                   "interval's midpoint", case, o, ok, want)
+                cs.expect(fe, "evaluation (a const operation) leaves the object's state unchanged", case0, None,
+                          snap(sp) == before, "identical state before and after")
     return cs.flush()
 
 
